@@ -31,8 +31,8 @@ from .talbase import TalCheck
 from .talcommon import run_real
 
 REC = re.compile(
-    r' - Expression: "(?P<expr>.*?)"\n - Filename:   (?P<file>.*)\n'
-    r' - Location:   \(line (?P<line>\d+): col (?P<col>\d+)\)', re.S)
+    r' - Expression: "(?P<expr>(?s:.*?))"\n - Filename:   (?P<file>[^\n]*)\n'
+    r' - Location:   \(line (?P<line>\d+): col (?P<col>\d+)\)')
 ALL_CLASSES = CAUGHT_NAMES + UNCAUGHT_NAMES + ["RecursionError"] + NONEXC_NAMES
 
 
@@ -45,7 +45,7 @@ class C12(TalCheck):
     prop = "C12"
     level = "fault_enumeration"
     gen_opts = {"on_error": 0.12, "max_sites": 20, "pipes": 0.3,
-                "prefixes": 0.3, "max_depth": 3}
+                "prefixes": 0.3, "max_depth": 3, "macros": 0.25}
 
     def gen(self, ch: Choices, tier: str) -> dict:
         g = Gen(ch, self.gen_opts)
@@ -164,14 +164,31 @@ class C12(TalCheck):
                         f"{units[-1]['text']!r} (line {units[-1]['line']} "
                         f"col {units[-1]['col']}); source at the reported "
                         f"position reads {at!r}"))
-                if fname != "<string>":
+                if any(r_[1] != "<string>" for r_ in recs):
                     vs.append(self._v("wrong-filename", k, cname,
-                                      f"filename {fname!r}"))
-                if len(recs) > 1:
-                    vs.append(self._v(
-                        "stale-records", k, cname,
-                        f"{len(recs)} location records in a single-file "
-                        f"template without macros: {recs}"))
+                                      f"filenames {[r_[1] for r_ in recs]}"))
+                # the enclosing call sites, innermost first
+                stack = m.get("use_stack") or []
+                if m["raise"] is None:
+                    stack = None        # (the model saw no failure: skip)
+                if stack is not None:
+                    want = []
+                    for eid in reversed(stack):
+                        u = next(o for o in occ if o.get("eid") == eid)
+                        want.append((u["text"], u["line"], u["col"]))
+                    got = [(r_[0], r_[2], r_[3]) for r_ in recs[1:]]
+                    if got != want:
+                        kind = "call-sites"
+                        if len(got) > len(want) and got[-len(want):] == want \
+                                if want else len(got) > 0:
+                            kind = "stale-records"
+                        vs.append(self._v(
+                            kind, k, cname,
+                            f"after the failing expression the message "
+                            f"lists {got}; the enclosing use-macro sites "
+                            f"(innermost first) are {want}"))
+                if stack:
+                    cover.add("stack-depth-%d" % len(stack))
         return vs
 
     @staticmethod
